@@ -33,6 +33,10 @@ def gen_ops(rng, sk, tmp, n):
             if sf["s"] == "leaf" and rng.random() < 0.6:
                 a = {"a": "val", "py": rng.choice(F.WRONG)}
             out.append({"op": "setitem", "key": p, "value": a, "via": rng.choice(["item", "attr"])})
+        if rng.random() < 0.2:
+            lo = H.gen_list_op(rng, sk, tmp)
+            if lo is not None:
+                out.append(lo)
     return out
 
 
@@ -44,10 +48,10 @@ def oracle(res, case, sk, ops, impl, live, tmp, keypath):
     for n, (op, st) in enumerate(zip(ops, impl["steps"])):
         out = st["out"]
         raised = isinstance(out, dict) and "err" in out
-        if raised and op["op"] == "setitem" and out.get("err") != "ArgBuild":
+        if raised and op["op"] in ("setitem", "list_op") and out.get("err") != "ArgBuild":
             a, b = C.canon_state(prev, {}), C.canon_state(st["state"], {})
             if a != b:
-                res.violate("C06:setitem-changed-state", "a rejected assignment changed the configuration",
+                res.violate("C06:%s-changed-state" % ("setitem" if op["op"] == "setitem" else "list-op"), "a rejected %s changed the configuration" % ("assignment" if op["op"] == "setitem" else "in-place list operation"),
                             dict(case, at=n, op=op, error=out))
         prev = st["state"]
 
